@@ -136,6 +136,22 @@ func (s *Solver) declare(t *Term) {
 	}
 }
 
+// live: are all symbols of t declared in the solver's current scope?
+func (s *Solver) live(t *Term) bool {
+	switch t.Op {
+	case "var", "uf":
+		if _, ok := s.declLevel[t.Name]; !ok {
+			return false
+		}
+	}
+	for _, a := range t.Args {
+		if !s.live(a) {
+			return false
+		}
+	}
+	return true
+}
+
 func (s *Solver) readLine() string {
 	line, err := s.out.ReadString('\n')
 	if err != nil {
@@ -234,10 +250,10 @@ func (s *Solver) Sat(pc []*Term, modelVars []*Term, extra ...*Term) (satResult, 
 		if len(modelVars) > 0 {
 			model = map[string]uint64{}
 			for _, v := range modelVars {
-				if !s.declared[v.Name] {
-					continue
+				if !s.live(v) {
+					continue // not constrained on this path: any value will do (0)
 				}
-				s.send("(get-value (" + v.Name + "))\n")
+				s.send("(get-value (" + v.str + "))\n")
 				l := s.readLine()
 				i := strings.LastIndexByte(l, ' ')
 				val := strings.TrimRight(l[i+1:], ")")
@@ -259,7 +275,7 @@ func (s *Solver) Sat(pc []*Term, modelVars []*Term, extra ...*Term) (satResult, 
 						fmt.Sscanf(l[j+5:], "%d", &x)
 					}
 				}
-				model[v.Name] = x
+				model[v.str] = x
 			}
 		}
 	case "unsat":
